@@ -10,7 +10,7 @@ THEOREMS = {
             "Obligations.BackendC.C16_frontend_extracted", "Obligations.BackendC.C16_sinks_extracted"],
     "C20": ["Backend.C20_counter", "Backend.C20_counter_exact", "Backend.C20_early_return_iff",
             "Backend.C20_zero_counter_noop", "Backend.C20_live_contexts_registered",
-            "Backend.C20_idle_poll_retains_live", "Backend.C20_reclaimed_delivered", "Backend.C20_narrow_counter_1bit",
+            "Backend.C20_idle_poll_reclaims", "Backend.C20_idle_poll_retains_live", "Backend.C20_reclaimed_delivered", "Backend.C20_narrow_counter_1bit",
             "Backend.C20_narrow_counter_2bit", "Backend.PC.CInv_runOps",
             "Obligations.BackendC.invalid_counter_wide", "Obligations.BackendC.c20_structure",
             "Obligations.BackendC.C20_counter_extracted", "Obligations.BackendC.C20_early_return_extracted"],
